@@ -428,6 +428,14 @@ where
                         .await
                 }
             }
+            Decoded::Packet(
+                pkt @ (Packet::SubscribeAck(_) | Packet::UnsubscribeAck(_)),
+                _,
+            ) => Err(ProtocolError::unexpected_packet(
+                pkt.packet_type(),
+                "Packet of the type is not expected from client",
+            )
+            .into()),
             Decoded::Packet(_, _) => Ok(None),
         }
     }
